@@ -341,3 +341,73 @@ Definition render_extview (v : extview) : list bytes :=
   | XRaw b => [[0]; b]
   end.
 Definition render_view (l : list extview) : list (list bytes) := map render_extview l.
+
+(** ** Helper definitions for the C07 statements and the correspondence run *)
+
+(** How an RFC 9174 item would be reported if the dissector saw it as an item. *)
+Definition item_view (e : extitem) : extview :=
+  XItem (ei_flags e) (ei_type e) (N.of_nat (length (ei_val e))) (ei_val e).
+
+(** The receive loop of [Messenger.recv_raw] over [parse_frame], for any
+    handler state [St], phase projection (the [_in_conn] flag) and handler
+    ([recv_message]).  Same text as the generic [loop]/[recv] of
+    Proofs/FrameProofs.v (proved equal there by conversion). *)
+Section RxLoop.
+  Variable St : Type.
+  Variable phase : St -> bool.
+  Variable handle : St -> frame -> St.
+
+  Fixpoint rx_loop (fuel : nat) (s : St) (buf : bytes) : St * bytes :=
+    match fuel with
+    | O => (s, buf)
+    | S fuel' =>
+      match buf with
+      | [] => (s, buf)
+      | _ :: _ =>
+        match parse_frame (phase s) buf with
+        | None => (s, buf)
+        | Some (f, r) => rx_loop fuel' (handle s f) r
+        end
+      end
+    end.
+
+  Definition rx_recv (st : St * bytes) (chunk : bytes) : St * bytes :=
+    rx_loop (S (length (snd st ++ chunk))) (fst st) (snd st ++ chunk).
+End RxLoop.
+
+(** The logging handler: state = ([_in_conn], frames acted on so far);
+    [_in_conn] is set by the first frame handled (the contact header). *)
+Definition log_state := (bool * list frame)%type.
+Definition log_phase (s : log_state) : bool := fst s.
+Definition log_handle (s : log_state) (f : frame) : log_state := (true, snd s ++ [f]).
+Definition rx_log_recv := rx_recv log_state log_phase log_handle.
+Definition rx_init : log_state * bytes := ((false, []), []).
+
+(** Cut a stream into reads of the given sizes (the last read takes what is left). *)
+Fixpoint split_at (lens : list nat) (l : bytes) : list bytes :=
+  match lens with
+  | [] => match l with [] => [] | _ => [l] end
+  | n :: lens' => firstn n l :: split_at lens' (skipn n l)
+  end.
+
+(** After each read: (number of frames acted on so far, octets kept). *)
+Fixpoint rx_trace (st : log_state * bytes) (chunks : list bytes) : list (nat * nat) * (log_state * bytes) :=
+  match chunks with
+  | [] => ([], st)
+  | c :: cs =>
+      let st' := rx_log_recv st c in
+      let (t, fin) := rx_trace st' cs in
+      ((length (snd (fst st')), length (snd st')) :: t, fin)
+  end.
+
+Definition rx_run (chunks : list bytes) : list (nat * nat) * (list (list bytes) * bytes) :=
+  let (t, fin) := rx_trace rx_init chunks in
+  (t, (map render_frame (snd (fst fin)), snd fin)).
+
+Definition rx_run_cut (stream : bytes) (lens : list nat) := rx_run (split_at lens stream).
+
+(** Codec entry points for the correspondence files. *)
+Definition render_parse (b : bytes) : option (list bytes * bytes) :=
+  match parse_msg b with Some (m, r) => Some (render_msg m, r) | None => None end.
+Definition render_spec_exts (known : N -> option nat) (region : bytes) : option (list (list bytes)) :=
+  match spec_exts known region with Some items => Some (render_exts items) | None => None end.
